@@ -1115,10 +1115,10 @@ class AnySolid(Material):
         return uf("P", Tc)
 
 
-def circle(name, T0, T1, od, id_, mult):
+def circle(name, T0, T1, od, id_, mult, nativeMaterial="HT9"):
     """a Circle component the way components.factory builds it from the blueprint's keyword arguments"""
     if NATIVE:
-        return basicShapes.Circle(name, "HT9", T0, T1, od=od, id=id_, mult=mult)
+        return basicShapes.Circle(name, nativeMaterial, T0, T1, od=od, id=id_, mult=mult)
     assume(uf("P", T0) > -100.0 and uf("P", T1) > -100.0)
     p = new(PMap, numberDensities={"FE": 0.02}, volume=None, detailedNDens=None, pinNDens=None, modArea=None, temperatureInC=T1, od=od, id=id_, mult=mult)
     # DIMENSION_NAMES: assigned by the metaclass ComponentType from the __init__ signature (od, id, mult, modArea for a Circle)
@@ -1155,3 +1155,156 @@ def link_strings_become_links_to_the_named_components(T0: float, T1: float, fuel
             pass  # an expansion law with P(T1) = P(T0) at T1 != T0 is refused loudly by getThermalExpansionFactor: outside the statement (as in C03)
         assert eq(fuel.getDimension("od", cold=True), fuelOd) and eq(clad.getDimension("id", cold=True), fuelOd + gapW), "numeric dimensions untouched"
         assert gap.getDimension("mult") == 1
+
+
+class YAttr:
+    """yamlize.Attribute as ComponentBlueprint._conformKwargs uses it: name, default, get_value(obj) = the object's value"""
+
+    def get_value(self, obj):
+        return getattr(obj, self.name)
+
+
+COMPONENT_ATTRS = ("name", "flags", "shape", "material", "Tinput", "Thot", "isotopics", "latticeIDs", "origin", "orientation", "mergeWith",
+                   "area", "od", "id", "mult")
+
+
+def componentDesign(**given):
+    """a ComponentBlueprint with the given attributes, every other one at its default None (symbolically the attribute list
+    `attributes`, which yamlize's metaclass collects, is given explicitly: the attributes above, a Circle's dimensions)"""
+    if NATIVE:
+        return new(ComponentBlueprint, **{k: v for k, v in given.items() if v is not None})
+    vals = {a: None for a in COMPONENT_ATTRS}
+    vals.update(given)
+    return new(ComponentBlueprint, attributes=[new(YAttr, name=a, default=None) for a in COMPONENT_ATTRS], **vals)
+
+
+class MatMark:
+    """the material instance _constructMaterial returns"""
+
+
+def constructMaterialContract(self, blueprint, matMods):
+    """contract of ComponentBlueprint._constructMaterial used here: a material made for this component with these modifications
+    (what it is: material_gets_isotopics_first_then_the_modifications)"""
+    return new(MatMark, forComponent=self.name, mods=matMods)
+
+
+@lemma(overrides=BLK, stubs={"armi.reactor.blueprints.componentBlueprint:ComponentBlueprint._constructMaterial": "constructMaterialContract"},
+       gen={"Ti": (20.0, 400.0), "Th": (20.0, 700.0), "od": (0.1, 2.0), "mult": (1, 300), "variant": (0, 2)})
+def component_keywords_are_the_blueprint_values(Ti: float, Th: float, od: float, mult: int, variant: int, e: float):
+    """ComponentBlueprint._conformKwargs (+ ComponentDimension): the keyword arguments the component is built with are the
+    blueprint's name, input and hot temperature, multiplicity and dimensions - numbers as numbers, links as the link text
+    (also when wrapped twice) -, the material made by _constructMaterial for the given modifications, isotopics / mergeWith
+    ('' when absent); shape, flags, lattice IDs are not passed on and attributes left out in the input do not appear.
+    Stand-ins: YAttr / attribute list, MatMark; _constructMaterial by contract."""
+    variant = choose(variant, 0, 2)
+    idv = (ComponentDimension(0.0), ComponentDimension("fuel.od"), ComponentDimension(ComponentDimension("fuel.od")))[variant]
+    cb = componentDesign(name="gap", shape="Circle", material="Sodium", Tinput=Ti, Thot=Th, od=ComponentDimension(od), id=idv,
+                         mult=ComponentDimension(mult), flags="gap" if variant else None, latticeIDs=["1"] if variant else None,
+                         isotopics="MOX" if variant == 1 else None, mergeWith="clad" if variant == 2 else None)
+    mods = {"TD_frac": e}
+    kw = cb._conformKwargs(new(Bp), mods)
+    expect = {"name", "material", "Tinput", "Thot", "od", "id", "mult", "isotopics", "mergeWith"}
+    assert set(kw.keys()) == expect, "exactly the specified attributes; shape / flags / latticeIDs are not constructor arguments"
+    assert kw["name"] == "gap" and eq(kw["Tinput"], Ti) and eq(kw["Thot"], Th), "input and hot temperature as specified"
+    assert eq(kw["od"], od) and kw["mult"] == mult, "numeric dimensions as numbers"
+    assert kw["id"] == (0.0, "fuel.od", "fuel.od")[variant], "linked dimension as the link text"
+    assert not any(isinstance(kw[k], ComponentDimension) for k in ("od", "id", "mult")), "plain values, no wrapper left (a wrapper equals its value)"
+    assert isinstance(kw["material"], MatMark) and kw["material"].forComponent == "gap" and same(kw["material"].mods, mods)
+    assert kw["isotopics"] == ("MOX" if variant == 1 else "") and kw["mergeWith"] == ("clad" if variant == 2 else "")
+
+
+@lemma(overrides=BLK, gen={"case": (0, 5)})
+def dimension_is_a_number_or_a_well_formed_link(case: int, x: float):
+    """ComponentDimension.__init__: numbers and `name.dimension` texts are accepted, any other text is refused."""
+    case = choose(case, 0, 5)
+    v = (x, "fuel.od", " clad . id ", "fuelod", "", ".")[case]
+    try:
+        d = ComponentDimension(v)
+        ok = True
+    except ValueError:
+        ok = False
+    assert ok == (case <= 2), "bad component link refused"
+    if ok:
+        assert d.value == v
+
+
+class DenseSolid:
+    """a library solid (stand-in for the class resolveMaterialClassByName returns): density(Tc) and linearExpansionFactor(Tc, T0) are
+    arbitrary functions with density > 0, 1 + dL/L > 0"""
+
+    def density(self, Tk=None, Tc=None):
+        return 7.5 if NATIVE else uf("rhoLib", Tc)
+
+    def linearExpansionFactor(self, Tc, T0):
+        return 1.2e-5 * (Tc - T0) if NATIVE else uf("dLL", Tc, T0)
+
+
+class ThinFluid(DenseSolid):
+    """a library fluid"""
+
+
+class NoDensity(DenseSolid):
+    """a material without density (Void)"""
+
+    def density(self, Tk=None, Tc=None):
+        return 0.0
+
+
+class MATS3:
+    """armi.materials as ComponentBlueprint._setComponentCustomDensity uses it"""
+
+    Custom = RealCustom
+    Fluid = ThinFluid
+
+    @staticmethod
+    def resolveMaterialClassByName(name):
+        return {"DenseSolid": DenseSolid, "ThinFluid": ThinFluid, "NoDensity": NoDensity, "Custom": RealCustom}[name]
+
+
+DENS = {"armi.reactor.blueprints.isotopicOptions:yamlize": "YZ", "armi.reactor.blueprints.isotopicOptions:ALLOWED_KEYS": "KEYS",
+        "armi.reactor.blueprints.isotopicOptions:materials": "MATS", "armi.reactor.blueprints.componentBlueprint:yamlize": "YZ",
+        "armi.reactor.blueprints.componentBlueprint:materials": "MATS3", "armi.nucDirectory.nuclideBases:byName": "BYNAME"}
+
+
+@lemma(overrides=DENS, stubs=WST, gen={"kind": (0, 4), "rho": (-1.0, 20.0), "n1": (0.001, 0.03), "n2": (0.001, 0.03), "T0": (20.0, 400.0),
+                                      "T1": (20.0, 700.0)})
+def custom_isotopic_density_sets_the_component_density(kind: int, rho: float, n1: float, n2: float, T0: float, T1: float, hot: bool):
+    """ComponentBlueprint._setComponentCustomDensity (+ Component.density / changeNDensByFactor): a component of a LIBRARY solid
+    with custom isotopics of density rho (mass per COLD volume, at the input temperature) ends with the hot density
+    rho / (1 + dL/L)^3 - or rho / (1 + dL/L)^2 when the input heights are hot (the height does not expand) -, every nuclide
+    scaled alike; a library fluid is scaled by rho / (library density at the input temperature); a Custom material, isotopics
+    without density and a component without isotopics are left alone; rho <= 0 and a material without density are refused.
+    Stand-ins: DenseSolid / ThinFluid / NoDensity / MATS3, Bp; component = Circle with PMap."""
+    weights_positive()
+    assume(n1 > 0 and n2 > 0)
+    kind = choose(kind, 0, 4)
+    matName = ("DenseSolid", "ThinFluid", "Custom", "NoDensity", "DenseSolid")[kind]
+    ci = isotopic("mass fractions", None if kind == 4 else rho, [0.2, 0.8])
+    ci._initializeMassFracs()
+    bp = new(Bp, customIsotopics=ymap(CustomIsotopics, [("MOX", ci)]))
+    cb = new(ComponentBlueprint, name="fuel", material=matName, isotopics="MOX", Tinput=T0)
+    comp = circle("fuel", T0, T1, 1.0, 0.0, 1, "Void")  # natively a real Circle without nuclides of its own
+    comp.p.numberDensities = {"U235": n1, "U238": n2}
+    before = comp.density()
+    if not NATIVE:
+        assume(uf("rhoLib", T0) > 0 and 1.0 + uf("dLL", T1, T0) > 0)
+    try:
+        cb._setComponentCustomDensity(comp, bp, {}, hot)
+        ok = True
+    except ValueError:
+        ok = False
+    assert ok == (kind == 4 or (rho > 0 and kind != 3)), "zero / negative density and a material without density are refused"
+    if ok:
+        after = comp.density()
+        lib = new(DenseSolid)
+        g = 1.0 + lib.linearExpansionFactor(T1, T0)
+        if kind == 0:
+            assert eq(after * (g * g if hot else g * g * g), rho), "hot density = cold custom density / volume expansion"
+        elif kind == 1:
+            assert eq(after * lib.density(Tc=T0), before * rho)
+        else:
+            assert eq(after, before), "Custom material / no density: untouched"
+        assert eq(comp.p.numberDensities["U235"] * n2, comp.p.numberDensities["U238"] * n1), "composition ratio kept"
+    cb2 = new(ComponentBlueprint, name="fuel", material=matName, isotopics=None, Tinput=T0)
+    cb2._setComponentCustomDensity(comp, bp, {}, hot)
+    assert eq(comp.density(), after if ok else before), "no isotopics: nothing to do"
